@@ -267,8 +267,142 @@ def enum_part(p, part, nparts, tier):
                     p.samples.append({'case': case, 'outcomes': outcomes})
 
 
+MASK_PASSWORDS = [
+    # boundary characters (not word characters, kept by quote_plus)
+    'S3cr3t.', 'S3cr3t-', '~S3cr3t', '_S3cr3t_', '.', '-x-', 'S3cr3t ',
+    ' S3cr3t', '-', '~',
+    # regular-expression metacharacters, raw and percent-encoded
+    'a.b*c', '(x)+[y]', '\\d+', '^pw$', 'p|q', 'x{2}', 'a?b',
+    # looks like the mask, repeats, contains itself
+    '***', 'abab', 'aa', 'pw***pw',
+    # URL / shell special, non-ASCII, long
+    'p@ss: w/rd?&=x +y', 'a\'b"c $(x) ;|', 'p\u00e4ssw\u00f6rd\u20ac',
+    'x' * 200, '%41%', '100%', 'a+b', 'a%2Bb',
+    # ordinary
+    'plainpassword', 'P4ssw0rd', '1234',
+]
+
+
+def mask_part(p, part, nparts):
+    """The masking of bert_e.lib.simplecmd.cmd itself, for passwords chosen
+    at the boundaries of what a masking implementation may get wrong: for
+    each password, a command that prints the clone URL (a) succeeds, (b)
+    fails, (c) times out, at DEBUG and INFO; the returned output, the
+    CommandError text and the log records are searched."""
+    import logging
+    from urllib.parse import quote_plus, quote
+    core.import_berte()
+    from bert_e.lib import simplecmd
+    records = []
+
+    class H(logging.Handler):
+        def emit(self, rec):
+            try:
+                records.append(rec.getMessage())
+                if rec.exc_info:
+                    records.append(logging.Formatter().formatException(
+                        rec.exc_info))
+            except Exception as e:
+                records.append('unformattable %r' % (e,))
+    h = H()
+    lg = logging.getLogger('bert_e.lib.simplecmd')
+    old = (lg.level, lg.propagate, logging.root.manager.disable)
+    logging.disable(logging.NOTSET)
+    lg.addHandler(h)
+    lg.propagate = False
+    idx = -1
+    try:
+        for pw in MASK_PASSWORDS:
+            enc = quote_plus(pw)
+            url = 'https://robot:%s@host.example/o/r.git' % enc
+            for level in (logging.DEBUG, logging.INFO):
+                for mode in ('ok', 'fail', 'timeout'):
+                    idx += 1
+                    if idx % nparts != part:
+                        continue
+                    lg.setLevel(level)
+                    del records[:]
+                    os.environ['VERIF_URL'] = url
+                    script = {
+                        'ok': 'echo "cloning $VERIF_URL" # %s' % url,
+                        'fail': 'echo "fatal: unable to access '
+                                '\'$VERIF_URL/\'"; exit 128 # %s' % url,
+                        'timeout': 'echo "fatal: $VERIF_URL"; sleep 2 # %s'
+                                   % url}[mode]
+                    texts = {}
+                    try:
+                        out = simplecmd.cmd(
+                            script, mask_pwd=enc,
+                            timeout=0.3 if mode == 'timeout' else 20)
+                        texts['output'] = out
+                    except simplecmd.CommandError as e:
+                        texts['CommandError'] = str(e)
+                        # what a traceback would print: the cause, or the
+                        # context unless it is suppressed (`from None`)
+                        c = e
+                        for _ in range(5):
+                            c = c.__cause__ or (
+                                None if c.__suppress_context__
+                                else c.__context__)
+                            if c is None:
+                                break
+                            texts['chained'] = texts.get('chained', '') + \
+                                str(c)
+                    except Exception as e:
+                        texts['crash'] = '%s: %s' % (type(e).__name__, e)
+                    texts['log'] = '\n'.join(records)
+                    p.evaluations += 1
+                    p.nontrivial += 1
+                    case = {'password': pw, 'level': logging.getLevelName(
+                        level), 'mode': mode}
+                    if 'crash' in texts:
+                        p.mismatch('mask-crash:%r' % pw,
+                                   'simplecmd.cmd crashed: %s (%s)' % (
+                                       texts['crash'], case), case)
+                    if mode == 'ok' and 'cloning' not in texts.get(
+                            'output', ''):
+                        p.mismatch('mask-output-lost:%r' % pw,
+                                   'output of a successful command lost: '
+                                   '%r (%s)' % (texts.get('output'), case),
+                                   case)
+                    needles = {enc, quote(pw, safe='')} | (
+                        {pw} if len(pw) >= 4 else set())
+                    for ch, text in texts.items():
+                        for nd in needles:
+                            # the mask itself and one-character passwords
+                            # cannot be told from ordinary text
+                            if len(nd) < 2 or set(nd) == {'*'}:
+                                continue
+                            if nd in text:
+                                p.mismatch(
+                                    'mask-leak:%s:%r' % (ch, pw),
+                                    'password %r visible in %s when the '
+                                    'command %s at %s' % (
+                                        pw, ch, mode,
+                                        logging.getLevelName(level)), case)
+    finally:
+        lg.removeHandler(h)
+        lg.setLevel(old[0])
+        lg.propagate = old[1]
+        logging.disable(old[2])
+        os.environ.pop('VERIF_URL', None)
+
+
 def extend(cr, tier, seed, workers):
     tot = core.run_parts(enum_part, 16, extra=(tier,), workers=workers)
+    tm = core.run_parts(mask_part, 8, workers=workers)
+    tot.evaluations += tm.evaluations
+    tot.nontrivial += tm.nontrivial
+    tot.mismatches += tm.mismatches
+    tot.error = tot.error or tm.error
+    cr.coverage['mask_sweep'] = {
+        'evaluations': tm.evaluations, 'passwords': len(MASK_PASSWORDS),
+        'rule': 'simplecmd.cmd with mask_pwd = quote_plus(password) for '
+                'passwords at masking boundaries (non-word first/last '
+                'character, regular-expression metacharacters, the mask '
+                'itself, percent forms, 200 characters) x {success, exit '
+                '128, time-out} x {DEBUG, INFO}; output, CommandError text '
+                '(and chained exceptions) and log records searched'}
     cov = cr.coverage
     cov['github_flows_part_b'] = {
         'evaluations': tot.evaluations, 'nontrivial': tot.nontrivial,
